@@ -100,6 +100,8 @@ pub struct EventSender<'a> {
     token: usize,
     // the select coroutine can use it to pass extra data to the caller
     extra: AtomicUsize,
+    // the poller's wake up slot, shared with the cqueue
+    to_wake: Arc<AtomicOption<Arc<Blocker>>>,
     // the mpsc event queue to collect the events
     cqueue: &'a Cqueue,
 }
@@ -123,6 +125,10 @@ impl EventSender<'_> {
 
 impl EventSource for EventSender<'_> {
     fn subscribe(&mut self, co: CoroutineImpl) {
+        // once the event is pushed the poller may run the bottom half to its
+        // end and leave the scope: `self` lives in the select coroutine and
+        // the cqueue in the poller, neither may be used after the push
+        let to_wake = self.to_wake.clone();
         self.cqueue.ev_queue.push(Event {
             id: self.id,
             token: self.token,
@@ -130,7 +136,7 @@ impl EventSource for EventSender<'_> {
             kind: EventKind::Normal,
             co: Some(co),
         });
-        if let Some(w) = self.cqueue.to_wake.take() {
+        if let Some(w) = to_wake.take() {
             w.unpark();
         }
     }
@@ -162,7 +168,7 @@ pub struct Cqueue {
     // the mpsc queue that transfer event
     ev_queue: Queue<Event>,
     // thread/coroutine for wake up
-    to_wake: AtomicOption<Arc<Blocker>>,
+    to_wake: Arc<AtomicOption<Arc<Blocker>>>,
     // track how many coroutines left
     cnt: AtomicUsize,
     // store the select coroutine handles
@@ -185,6 +191,7 @@ impl Cqueue {
             id: self.total.load(Ordering::Relaxed),
             token,
             extra: 0.into(),
+            to_wake: self.to_wake.clone(),
             cqueue: self,
         };
         let h = unsafe { spawn_unsafe(move || f(sender)) };
@@ -350,7 +357,7 @@ where
     let mut _dropped = VerifDropped(0);
     let cqueue = Cqueue {
         ev_queue: Queue::new(),
-        to_wake: AtomicOption::none(),
+        to_wake: Arc::new(AtomicOption::none()),
         cnt: AtomicUsize::new(0),
         selectors: Mutex::new(Vec::new()),
         total: AtomicUsize::new(0),
